@@ -480,24 +480,176 @@ Qed.
 
 (* ================================================================ the regenerated table satisfies the range conditions *)
 Definition same_cat (a b : unit) : bool := String.eqb (u_cat a) (u_cat b).
-(* every ordered pair of linear/reciprocal units of one category: coefficients are valid finite non-zero
-   binary64s and the four-operation chain stays in the normal range for 2^-K <= |v| <= 2^K *)
-Definition lr_pairs_ok (K : Z) : bool :=
-  forallb (fun ua => forallb (fun ub =>
-    if same_cat ua ub && is_lr ua && is_lr ub
-    then finb (cnum ua) && finb (cnum ub) && tab_ok ua ub (- K, K)%Z else true) all_units) all_units.
-(* every ordered triple (ub, uc range over the linear/reciprocal units of ua's category) *)
-Definition lr_mates (ua : unit) : list unit := filter (fun x => same_cat ua x && is_lr x) all_units.
-Definition lr_triples_ok (K : Z) : bool :=
-  forallb (fun ua =>
-    if is_lr ua then
-      let sa := usum ua in
-      let cs := map usum (lr_mates ua) in
-      forallb (fun sb => forallb (fun sc => compS_ok sa sb sc (- K, K)%Z) cs) cs
-    else true) all_units.
-
 Definition Kv : Z := 40.
-Lemma table_lr_pairs_ok : lr_pairs_ok Kv = true.
+(* an ordered pair of linear/reciprocal units of one category: coefficients are valid finite non-zero
+   binary64s and the four-operation chain stays in the normal range for 2^-Kv <= |v| <= 2^Kv *)
+Definition pair_check (ua ub : unit) : bool :=
+  if same_cat ua ub && is_lr ua && is_lr ub
+  then finb (cnum ua) && finb (cnum ub) && tab_ok ua ub (- Kv, Kv)%Z else true.
+(* ordered triples (ub, uc range over the linear/reciprocal units of ua's category) *)
+Definition lr_mates (l : list unit) (ua : unit) : list unit := filter (fun x => same_cat ua x && is_lr x) l.
+Definition triple_check_on (sa : ksum) (cs : list ksum) : bool :=
+  forallb (fun sb => forallb (fun sc => compS_ok sa sb sc (- Kv, Kv)%Z) cs) cs.
+Definition triple_check (l : list unit) (ua : unit) : bool :=
+  if is_lr ua then triple_check_on (usum ua) (map usum (lr_mates l ua)) else true.
+
+(* exhaustive over the regenerated table (the statements are kept in forallb form: the kernel must not be
+   asked to convert a folded name into the computation) *)
+Lemma table_lr_pairs_ok : forallb (fun ua => forallb (pair_check ua) all_units) all_units = true.
 Proof. vm_cast_no_check (eq_refl true). Qed.
-Lemma table_lr_triples_ok : lr_triples_ok Kv = true.
+Lemma table_lr_triples_ok : forallb (triple_check all_units) all_units = true.
 Proof. vm_cast_no_check (eq_refl true). Qed.
+Lemma same_cat_true a b : u_cat a = u_cat b -> same_cat a b = true.
+Proof. intros H. unfold same_cat. rewrite H. apply String.eqb_refl. Qed.
+
+Lemma table_pair ua ub : In ua all_units -> In ub all_units -> u_cat ua = u_cat ub ->
+  is_lr ua = true -> is_lr ub = true ->
+  fin (cnum ua) /\ fin (cnum ub) /\ tab_ok ua ub (- Kv, Kv)%Z = true.
+Proof.
+  intros Ia Ib C La Lb. pose proof table_lr_pairs_ok as H.
+  rewrite forallb_forall in H. specialize (H ua Ia). rewrite forallb_forall in H. specialize (H ub Ib). unfold pair_check in H.
+  rewrite (same_cat_true _ _ C), La, Lb in H. cbn [andb] in H.
+  apply andb_prop in H. destruct H as [H H3]. apply andb_prop in H. destruct H as [H1 H2].
+  split; [apply finb_fin; exact H1|]. split; [apply finb_fin; exact H2|exact H3].
+Qed.
+Lemma triple_extract (l : list unit) ua ub uc : forallb (triple_check l) l = true ->
+  In ua l -> In ub l -> In uc l ->
+  u_cat ua = u_cat ub -> u_cat ub = u_cat uc ->
+  is_lr ua = true -> is_lr ub = true -> is_lr uc = true -> comp_ok ua ub uc (- Kv, Kv)%Z = true.
+Proof.
+  intros H Ia Ib Ic C1 C2 La Lb Lc.
+  rewrite forallb_forall in H. specialize (H ua Ia). unfold triple_check, triple_check_on in H. rewrite La in H.
+  assert (Mb : In (usum ub) (map usum (lr_mates l ua))).
+  { apply in_map. unfold lr_mates. apply filter_In. split; [exact Ib|]. rewrite (same_cat_true _ _ C1), Lb. reflexivity. }
+  assert (Mc : In (usum uc) (map usum (lr_mates l ua))).
+  { apply in_map. unfold lr_mates. apply filter_In. split; [exact Ic|]. rewrite (same_cat_true ua uc) by congruence. rewrite Lc. reflexivity. }
+  rewrite forallb_forall in H. specialize (H _ Mb). rewrite forallb_forall in H. exact (H _ Mc).
+Qed.
+Lemma table_triple ua ub uc : In ua all_units -> In ub all_units -> In uc all_units ->
+  u_cat ua = u_cat ub -> u_cat ub = u_cat uc ->
+  is_lr ua = true -> is_lr ub = true -> is_lr uc = true -> comp_ok ua ub uc (- Kv, Kv)%Z = true.
+Proof. exact (triple_extract all_units ua ub uc table_lr_triples_ok). Qed.
+
+(* no range hypothesis left: any two linear/reciprocal units of one category of the table, any valid v
+   with 2^-40 <= |v| <= 2^40 *)
+Theorem there_and_back_float_table : forall ua ub v,
+  In ua all_units -> In ub all_units -> u_cat ua = u_cat ub -> is_lr ua = true -> is_lr ub = true ->
+  fin v -> win (- Kv) Kv (Rv v) ->
+  let r2 := through_base fl v ua ub in
+  let r4 := through_base fl r2 ub ua in
+  fin r2 /\ fin r4 /\ Rabs (Rv r4 - Rv v) <= (qq ^ 4 - 1) * Rabs (Rv v).
+Proof.
+  intros ua ub v Ia Ib C La Lb Fv Wv.
+  destruct (table_pair ua ub Ia Ib C La Lb) as [Fa [Fb OK]].
+  exact (there_and_back_float_lr ua ub v (- Kv, Kv)%Z La Lb Fa Fb Fv Wv OK).
+Qed.
+
+Theorem composition_float_table : forall ua ub uc v,
+  In ua all_units -> In ub all_units -> In uc all_units ->
+  u_cat ua = u_cat ub -> u_cat ub = u_cat uc ->
+  is_lr ua = true -> is_lr ub = true -> is_lr uc = true ->
+  fin v -> win (- Kv) Kv (Rv v) ->
+  let r_ab := through_base fl v ua ub in
+  let r_abc := through_base fl r_ab ub uc in
+  let r_ac := through_base fl v ua uc in
+  fin r_abc /\ fin r_ac /\ Rabs (Rv r_abc - Rv r_ac) <= (qq ^ 6 - 1) * Rabs (Rv r_ac).
+Proof.
+  intros ua ub uc v Ia Ib Ic C1 C2 La Lb Lc Fv Wv.
+  destruct (table_pair ua ub Ia Ib C1 La Lb) as [Fa [Fb _]].
+  destruct (table_pair ub uc Ib Ic C2 Lb Lc) as [_ [Fc _]].
+  exact (composition_float_lr ua ub uc v (- Kv, Kv)%Z La Lb Lc Fa Fb Fc Fv Wv
+           (table_triple ua ub uc Ia Ib Ic C1 C2 La Lb Lc)).
+Qed.
+
+(* ================================================================ 6a. the same at the level of convert / the built-in *)
+Lemma same_ids_true a b : same_ids a b = true -> u_ids a = u_ids b.
+Proof. unfold same_ids. destruct (list_eq_dec string_dec (u_ids a) (u_ids b)); [auto|discriminate]. Qed.
+Lemma same_ids_sym a b : same_ids a b = same_ids b a.
+Proof.
+  unfold same_ids. destruct (list_eq_dec string_dec (u_ids a) (u_ids b)), (list_eq_dec string_dec (u_ids b) (u_ids a)); congruence.
+Qed.
+Lemma same_ids_unit a b : In a all_units -> In b all_units -> same_ids a b = true -> a = b.
+Proof. intros Ia Ib H. apply same_ids_same_unit; auto. apply same_ids_true. exact H. Qed.
+
+Lemma qq_pow_mono n m : (n <= m)%nat -> qq ^ n <= qq ^ m.
+Proof. intros H. apply Rle_pow; [apply qq_ge1|exact H]. Qed.
+
+(* what a user calls: convert(v, a, b) then convert(_, b, a), for ANY two identifiers that resolve to
+   linear/reciprocal units of one category (the same unit included: then the result is v itself) *)
+Theorem builtin_there_and_back_float : forall a b ua ub v,
+  resolve_unit a = UOk ua -> resolve_unit b = UOk ub -> u_cat ua = u_cat ub ->
+  is_lr ua = true -> is_lr ub = true -> fin v -> win (- Kv) Kv (Rv v) ->
+  exists r1 r2,
+    builtin_convert (ANum v) (AStr a) (AStr b) = UOk r1 /\
+    builtin_convert (ANum r1) (AStr b) (AStr a) = UOk r2 /\
+    Rabs (Rv r2 - Rv v) <= (qq ^ 4 - 1) * Rabs (Rv v).
+Proof.
+  intros a b ua ub v Ra Rb C La Lb Fv Wv.
+  pose proof (resolve_unit_In _ _ Ra) as Ia. pose proof (resolve_unit_In _ _ Rb) as Ib.
+  eexists. eexists. rewrite !builtin_is_convert.
+  rewrite (same_category_converts fl v a b ua ub Ra Rb C).
+  split; [reflexivity|].
+  rewrite (same_category_converts fl _ b a ub ua Rb Ra (eq_sym C)).
+  split; [reflexivity|]. rewrite (same_ids_sym ub ua).
+  destruct (same_ids ua ub) eqn:E.
+  - replace (Rv v - Rv v) with 0 by ring. rewrite Rabs_R0.
+    apply Rmult_le_pos; [pose proof (qq_pow_ge1 4); lra|apply Rabs_pos].
+  - apply (there_and_back_float_table ua ub v Ia Ib C La Lb Fv Wv).
+Qed.
+
+Theorem builtin_composition_float : forall a b c ua ub uc v,
+  resolve_unit a = UOk ua -> resolve_unit b = UOk ub -> resolve_unit c = UOk uc ->
+  u_cat ua = u_cat ub -> u_cat ub = u_cat uc ->
+  is_lr ua = true -> is_lr ub = true -> is_lr uc = true -> fin v -> win (- Kv) Kv (Rv v) ->
+  exists r1 r2 r3,
+    builtin_convert (ANum v) (AStr a) (AStr b) = UOk r1 /\
+    builtin_convert (ANum r1) (AStr b) (AStr c) = UOk r2 /\
+    builtin_convert (ANum v) (AStr a) (AStr c) = UOk r3 /\
+    Rabs (Rv r2 - Rv r3) <= (qq ^ 6 - 1) * Rabs (Rv r3).
+Proof.
+  intros a b c ua ub uc v Ra Rb Rc C1 C2 La Lb Lc Fv Wv.
+  pose proof (resolve_unit_In _ _ Ra) as Ia. pose proof (resolve_unit_In _ _ Rb) as Ib.
+  pose proof (resolve_unit_In _ _ Rc) as Ic.
+  assert (C3 : u_cat ua = u_cat uc) by congruence.
+  eexists. eexists. eexists. rewrite !builtin_is_convert.
+  rewrite (same_category_converts fl v a b ua ub Ra Rb C1).
+  split; [reflexivity|].
+  rewrite (same_category_converts fl _ b c ub uc Rb Rc C2). split; [reflexivity|].
+  rewrite (same_category_converts fl v a c ua uc Ra Rc C3). split; [reflexivity|].
+  assert (Z0 : forall x, Rabs (x - x) <= (qq ^ 6 - 1) * Rabs x).
+  { intros x. replace (x - x) with 0 by ring. rewrite Rabs_R0.
+    apply Rmult_le_pos; [pose proof (qq_pow_ge1 6); lra|apply Rabs_pos]. }
+  destruct (same_ids ua ub) eqn:Eab.
+  { apply (same_ids_unit _ _ Ia Ib) in Eab. subst ub. apply Z0. }
+  destruct (same_ids ub uc) eqn:Ebc.
+  { apply (same_ids_unit _ _ Ib Ic) in Ebc. subst uc. rewrite Eab. apply Z0. }
+  destruct (same_ids ua uc) eqn:Eac.
+  { apply (same_ids_unit _ _ Ia Ic) in Eac. subst uc.
+    destruct (there_and_back_float_table ua ub v Ia Ib C1 La Lb Fv Wv) as [_ [_ H]].
+    eapply Rle_trans; [exact H|]. apply Rmult_le_compat_r; [apply Rabs_pos|].
+    pose proof (qq_pow_mono 4 6 ltac:(lia)). lra. }
+  apply (composition_float_table ua ub uc v Ia Ib Ic C1 C2 La Lb Lc Fv Wv).
+Qed.
+
+(* a decidable form of all the hypotheses, for instantiation *)
+Definition vwin_b (v : num) : bool := (finb v && (- Kv <=? lo v) && (lo v + 1 <=? Kv))%Z.
+Lemma vwin_b_ok v : vwin_b v = true -> fin v /\ win (- Kv) Kv (Rv v).
+Proof.
+  unfold vwin_b. intros H. apply andb_prop in H. destruct H as [H H3]. apply andb_prop in H. destruct H as [H1 H2].
+  apply finb_fin in H1. split; [exact H1|].
+  apply Z.leb_le in H2. apply Z.leb_le in H3.
+  apply (win_weaken (lo v) (lo v + 1)); [exact H2|exact H3|apply lo_win; exact H1].
+Qed.
+Definition lr_hyps_b (a b : string) : bool :=
+  match resolve_unit a, resolve_unit b with
+  | UOk ua, UOk ub => same_cat ua ub && is_lr ua && is_lr ub
+  | _, _ => false
+  end.
+Lemma lr_hyps_b_ok a b : lr_hyps_b a b = true ->
+  exists ua ub, resolve_unit a = UOk ua /\ resolve_unit b = UOk ub /\ u_cat ua = u_cat ub /\
+                is_lr ua = true /\ is_lr ub = true.
+Proof.
+  unfold lr_hyps_b. destruct (resolve_unit a) as [ua|]; [|discriminate]. destruct (resolve_unit b) as [ub|]; [|discriminate].
+  intros H. apply andb_prop in H. destruct H as [H H3]. apply andb_prop in H. destruct H as [H1 H2].
+  exists ua, ub. repeat split; auto. apply String.eqb_eq. exact H1.
+Qed.
